@@ -455,6 +455,9 @@ func (mr MeshReader) Read(reader io.Reader) (*modeling.Mesh, error) {
 			}
 
 			contents := strings.Fields(text)
+			if len(contents) < len(vertexElement.Properties) {
+				return nil, fmt.Errorf("vertex %d has %d of %d properties: %w", i, len(contents), len(vertexElement.Properties), io.ErrUnexpectedEOF)
+			}
 
 			for _, reader := range asciiReaders {
 				err = reader.Read(contents, i)
